@@ -14,7 +14,7 @@ PROPERTY = "C02"
 LEVEL = "exploration"
 SHARDS = {"quick": 16, "thorough": 16}
 RULE = ("typed Sids built by natural typing from per-key value sets of every configured type (closed vocabularies incl. "
-        "aliases, digit values, free names incl. '_-.+ quote backslash unicode', each key optionally '*' or '>'), "
+        "aliases, digit values, free names incl. '_-.+ quote backslash unicode' and (1 in 12) an empty value, each key optionally '*' or '>'), "
         "Hypothesis-sampled; in the thorough tier additionally the exhaustive product of reduced per-key value sets for every type. "
         "Each Sid is rebuilt from uri, shuffled fields, query string, eval(repr()) and copy(); pairs are compared for "
         "equality <=> (type, fields) equality. non-trivial = contains a search symbol, an alias, belongs to a type whose key "
@@ -59,6 +59,12 @@ def cases(draw):
         else:
             tt = base_t if draw(st.booleans()) else draw(st.sampled_from(m.types))
             t, f = draw(gens.typed_fields(m, [tt], search_p=0.2, wide=True))
+        if draw(st.integers(0, 11)) == 0:
+            # a key present with an EMPTY value (accepted by the free patterns; the query form cannot express it and is skipped)
+            cands = [k for k in m.keys(t) if m.accepts_value(t, k, "")]
+            if cands:
+                f = dict(f)
+                f[draw(st.sampled_from(cands))] = ""
         s = "/".join(f[k] for k in m.keys(t))
         forced = draw(st.sampled_from([None, None, None, "same", "sibling"])) if i else None
         items.append({"s": s, "forced": forced, "_tf": (t, f), "perm": draw(st.randoms(use_true_random=False)).random()})
@@ -160,6 +166,9 @@ def check_one(m, out: Outcome, text: str, perm: float, first: bool):
         out.label("type:" + t, "natural" if natural else "forced")
         if any(v in ("*", ">") for v in vals):
             out.label("search")
+        if any(v == "" for v in vals):
+            out.label("empty-value")
+            out.nontrivial = True
     return sid
 
 
